@@ -143,6 +143,7 @@ pub fn run(ctx: &mut Ctx) {
         ctx.out.stat(&format!("c01.V{}", cfg.ver + 1));
         let bytes = std::fs::read(&path).unwrap_or_default();
         let mut a = match Archive::open(&path) { Ok(a) => a, Err(e) => { ctx.out.oracle(false, "built-archive-does-not-open", &format!("{desc}: {e}")); continue; } };
+        header_cases(ctx, &cfg, &bytes, &desc);
         // codec table for the model: stored unit -> plain unit
         let small = bytes.len() < 120_000;
         if small { ctx.out.case("codecreset", "ok"); }
@@ -378,4 +379,81 @@ pub fn het_cases(ctx: &mut Ctx, a: &Archive, names: &[String], attrs: bool, list
         ctx.out.oracle(res.map(|r| r as usize) == want, "extended-lookup-resolves-wrongly", &format!("{q}: candidates {cands:?}, confirmed {res:?}, block {want:?}"));
     }
     ctx.out.stat("c01.het.modelled");
+}
+
+/// view of MpqHeader::read on `bytes` in the notation of Model.C01Header (show_)
+pub fn header_view(bytes: &[u8]) -> String {
+    let mut c = std::io::Cursor::new(bytes);
+    match std::panic::catch_unwind(move || wow_mpq::MpqHeader::read(&mut c)) {
+        Err(_) => "panic".into(),
+        Ok(Err(wow_mpq::Error::Io(_))) => "err io".into(),
+        Ok(Err(wow_mpq::Error::UnsupportedVersion(_))) => "err ver".into(),
+        Ok(Err(_)) => "err fmt".into(),
+        Ok(Ok(h)) => {
+            let le = |d: &[u8; 16]| { let mut v = 0u128; for (i, b) in d.iter().enumerate() { v |= (*b as u128) << (8 * i); } v.to_string() };
+            let mut v: Vec<String> = vec![h.header_size.to_string(), h.archive_size.to_string(), (h.format_version as u16).to_string(), h.block_size.to_string(),
+                h.hash_table_pos.to_string(), h.block_table_pos.to_string(), h.hash_table_size.to_string(), h.block_table_size.to_string()];
+            if let (Some(a), Some(b), Some(c)) = (h.hi_block_table_pos, h.hash_table_pos_hi, h.block_table_pos_hi) { v.push(a.to_string()); v.push(b.to_string()); v.push(c.to_string()); }
+            if let (Some(a), Some(b), Some(c)) = (h.archive_size_64, h.bet_table_pos, h.het_table_pos) { v.push(a.to_string()); v.push(b.to_string()); v.push(c.to_string()); }
+            if let Some(d) = &h.v4_data {
+                for x in [d.hash_table_size_64, d.block_table_size_64, d.hi_block_table_size_64, d.het_table_size_64, d.bet_table_size_64] { v.push(x.to_string()); }
+                v.push(d.raw_chunk_size.to_string());
+                for m in [&d.md5_block_table, &d.md5_hash_table, &d.md5_hi_block_table, &d.md5_bet_table, &d.md5_het_table, &d.md5_mpq_header] { v.push(le(m)); }
+            }
+            format!("ok {} | {} {} {}", v.join(" "), h.get_hash_table_pos(), h.get_block_table_pos(), h.get_archive_size())
+        }
+    }
+}
+
+/// Model.C01Header against MpqHeader::read: the header the builder wrote (with the fields it was asked for - oracle), every
+/// header field replaced by boundary values, truncations at and around every field boundary
+pub fn header_cases(ctx: &mut Ctx, cfg: &Cfg, bytes: &[u8], desc: &str) {
+    let hb = &bytes[..bytes.len().min(240)];
+    let imp = header_view(hb);
+    ctx.out.case(&format!("c01hdr {}", hex(hb)), &imp);
+    ctx.out.stat(&format!("c01.hdr.{}", imp.split(' ').take(2).collect::<Vec<_>>().join("_").replace(|c: char| c.is_ascii_digit(), "")));
+    // oracle: what the builder was asked for is what its header says
+    let toks: Vec<&str> = imp.split(' ').collect();
+    if toks[0] == "ok" {
+        let want_size = [32u32, 44, 68, 208][cfg.ver];
+        let ok = toks[1] == want_size.to_string() && toks[3] == cfg.ver.to_string() && toks[4] == cfg.shift.to_string()
+            && toks.last().map(|t| *t == bytes.len().to_string()).unwrap_or(false);
+        ctx.out.oracle(ok, "built-header-field-differs", &format!("{desc}: header {imp}, file length {}", bytes.len()));
+    } else { ctx.out.oracle(false, "built-header-not-accepted", &format!("{desc}: {imp}")); }
+    // mutants: one in four archives (the header reader is cheap, the request lines are long)
+    if ctx.rng.below(4) != 0 && !ctx.thorough { return; }
+    let fields: &[(usize, usize)] = &[(0, 4), (4, 4), (8, 4), (12, 2), (14, 2), (16, 4), (20, 4), (24, 4), (28, 4), (32, 8), (40, 2), (42, 2), (44, 8), (52, 8), (60, 8), (68, 8), (108, 4), (112, 16)];
+    let asz = u32::from_le_bytes([hb[8], hb[9], hb[10], hb[11]]) as u64;
+    for &(off, w) in fields {
+        if off + w > hb.len() { continue; }
+        let vals: Vec<u64> = match off {
+            4 => vec![0, 31, 32, 43, 44, 67, 68, 207, 208, 209, 1024, 1025, u32::MAX as u64],
+            12 => vec![0, 1, 2, 3, 4, 5, 0xFFFF],
+            14 => vec![0, 20, 21, 0xFFFF],
+            8 => vec![0, 1, 0xFFFF_FFFF, asz / 2],
+            16 | 20 => vec![0, asz.saturating_sub(1), asz, asz + 1, asz + 65536, 0xFFFF_FFF0, u32::MAX as u64],
+            24 | 28 => vec![0, 1, 2, 3, 1 << 19, 1 << 20, 1_000_000, 1_000_001, 1 << 28, u32::MAX as u64],
+            _ => vec![0, 1, u64::MAX],
+        };
+        for v in vals {
+            let mut m = hb.to_vec();
+            m[off..off + w].copy_from_slice(&(v as u128).to_le_bytes()[..w]);
+            let imp = header_view(&m);
+            ctx.out.case(&format!("c01hdr {}", hex(&m)), &imp);
+            ctx.out.stat(&format!("c01.hdrmut.{}", imp.split(' ').take(2).collect::<Vec<_>>().join("_").replace(|c: char| c.is_ascii_digit(), "")));
+        }
+    }
+    for cut in [0usize, 3, 4, 31, 32, 33, 43, 44, 45, 67, 68, 69, 207, 208] {
+        if cut > hb.len() { continue; }
+        let imp = header_view(&hb[..cut]);
+        ctx.out.case(&format!("c01hdr {}", if cut == 0 { "-".to_string() } else { hex(&hb[..cut]) }), &imp);
+        ctx.out.stat(&format!("c01.hdrcut.{}", imp.split(' ').take(2).collect::<Vec<_>>().join("_").replace(|c: char| c.is_ascii_digit(), "")));
+    }
+    // a V3 header that announces the V4 size (the reader then reads the V4 block) and a V4 header that announces less
+    for (ver, size) in [(2u16, 208u32), (2, 300), (3, 68), (3, 207), (1, 208), (0, 44)] {
+        let mut m = hb.to_vec(); m.resize(240, 0xA5);
+        m[4..8].copy_from_slice(&size.to_le_bytes()); m[12..14].copy_from_slice(&ver.to_le_bytes());
+        let imp = header_view(&m);
+        ctx.out.case(&format!("c01hdr {}", hex(&m)), &imp);
+    }
 }
